@@ -396,6 +396,38 @@ func (c *Ctx) splitUsing(env *SpecEnv, items []string) (names []string, extra []
 				}
 				n := c.fresh("mention")
 				extra = append(extra, fmt.Sprintf("(declare-fun %s () %s)", n, c.sortOf(v.Ty)), fmt.Sprintf("(assert (= %s %s))", n, v.T))
+				// a mentioned application of an opaque spec function is also unfolded once by the
+				// translator itself: index arithmetic of the body is then folded with the actual
+				// arguments ((j-1)+1 becomes j), which the solver's instantiation of the
+				// definitional axiom would leave to arithmetic reasoning under the quantifier
+				if ac, ok := a.(*ECall); ok {
+					if aid, ok := ac.Fun.(*EIdent); ok {
+						if sf := c.findSpec(aid.Name, env.pkg); sf != nil && sf.Opaque && sf.Body != nil && sf.Decreases == nil && len(sf.Params) == len(ac.Args) {
+							nerr2 := len(c.errs)
+							ne := env
+							okArgs := true
+							for i, p := range sf.Params {
+								av := env.tr(ac.Args[i])
+								if av.Ty == nil {
+									okArgs = false
+									break
+								}
+								ne = ne.withVar(p.Name, av)
+							}
+							if okArgs {
+								body := ne.tr(sf.Body)
+								// only quantifier-free bodies: an unfolded quantified body is one more
+								// quantifier for the solver to instantiate and made proofs slower
+								if len(c.errs) == nerr2 && body.Ty != nil && !strings.Contains(body.T, "(forall ") && !strings.Contains(body.T, "(exists ") {
+									extra = append(extra, fmt.Sprintf("(assert (= %s %s))", v.T, body.T))
+								}
+							}
+							if len(c.errs) > nerr2 {
+								c.errs = c.errs[:nerr2]
+							}
+						}
+					}
+				}
 			}
 			continue
 		}
